@@ -234,7 +234,14 @@ pub fn def() -> CheckDef {
         assumptions: vec!["the member set is stable during the measured phase (checked)".into(), "peers are scripted: each Ping is answered at once with the matching Ack".into()],
         real_components: "one real Foca instance (Members::next / shuffle, the whole probe cycle)",
         stub_components: "peers (immediate Ack), timers fired by the script",
-        batches: vec![Batch { scenario: &RoundRobin, quick: 25_000, thorough: 2_000_000 }],
+        batches: vec![
+            Batch { scenario: &RoundRobin, quick: 25_000, thorough: 2_000_000 },
+            // the same clauses as a monitor on every probe round of the shared histories (windows restart
+            // whenever the set of known members changes), of the chaos pool and of the exhaustive short histories
+            Batch { scenario: &crate::checks::histchecks::H14, quick: 40_000, thorough: 3_000_000 },
+            Batch { scenario: crate::checks::histchecks::chaos_for("C14"), quick: 3_000, thorough: 150_000 },
+            Batch { scenario: crate::checks::histchecks::exhaustive_for("C14"), quick: 0, thorough: 0 },
+        ],
         extra: None,
     }
 }
